@@ -852,26 +852,26 @@ where
             }
             Instruction::Update => {
                 let fact_to: Fact = self.ipop()?;
-                let mut fact_from: Fact = self.ipop()?;
-                let mut replaced_fact = {
+                let fact_from: Fact = self.ipop()?;
+                let replaced_fact = {
                     let mut iter = self.io.fact_query(fact_from.name.clone(), fact_from.keys)?;
                     iter.next().ok_or_else(|| {
                         self.err(MachineErrorType::InvalidFact(fact_from.name.clone()))
                     })??
                 };
 
-                if !fact_from.values.is_empty() {
-                    let replaced_fact_values = &mut replaced_fact.1;
-
-                    replaced_fact_values
-                        .sort_unstable_by(|v1, v2| v1.identifier.cmp(&v2.identifier));
-                    fact_from
-                        .values
-                        .sort_unstable_by(|v1, v2| v1.identifier.cmp(&v2.identifier));
-
-                    if replaced_fact_values.as_slice() != fact_from.values.as_slice() {
-                        return Err(self.err(MachineErrorType::InvalidFact(fact_from.name.clone())));
-                    }
+                // Only the value fields given in the literal are compared. Fields
+                // bound with `?` are omitted from it (see `lower_fact_values`), so
+                // the literal may name fewer fields than the stored fact has.
+                let values_match = fact_from.values.iter().all(|fv| {
+                    replaced_fact
+                        .1
+                        .iter()
+                        .find(|v| v.identifier == fv.identifier)
+                        .is_some_and(|v| v.value == fv.value)
+                });
+                if !values_match {
+                    return Err(self.err(MachineErrorType::InvalidFact(fact_from.name.clone())));
                 }
 
                 self.io.fact_delete(fact_from.name, replaced_fact.0)?;
